@@ -25,7 +25,9 @@ Definition chain_eqb (a b : chain) : bool :=
                            | _, _ => false
                            end) a b.
 
-(* l[p] = x   (p is always in range where this is used: proved, see scatter_in_range) *)
+(* l[p] = x   (an index beyond the end leaves the list unchanged instead of raising IndexError; every use is in
+   range: group positions are < len(uniq_fun) (positions_in), idx-file entries < ntot (rows_aligned), to_change
+   entries < ntot by hypothesis) *)
 Fixpoint upd {X} (p : nat) (x : X) (l : list X) : list X :=
   match l, p with
   | [], _ => []
